@@ -48,6 +48,8 @@ def remove_integer(string: bytes, use_broken_open_ssl_mechanism: bool = False) -
         raise UnexpectedDER("ran out of integer bytes")
     numberbytes = string[1 + llen : 1 + llen + length]
     rest = string[1 + llen + length :]
+    if length == 0:
+        raise UnexpectedDER("zero-length integer")
     v = int(binascii.hexlify(numberbytes), 16)
     if ord(numberbytes[:1]) >= 0x80:
         if not use_broken_open_ssl_mechanism:
@@ -68,6 +70,8 @@ def encode_length(length: int) -> bytes:
 
 
 def read_length(string: bytes) -> tuple[int, int]:
+    if len(string) == 0:
+        raise UnexpectedDER("ran out of length bytes")
     s0 = ord(string[:1])
     if not (s0 & 0x80):
         # short form
